@@ -49,6 +49,7 @@ pub enum SeamEv {
     Open { t_us: i64, ok: bool },
     Sleep { t_us: i64, d_us: i64 },
     Read { t_us: i64, conn: usize, op: usize, n: usize },
+    ReadTimeout { t_us: i64, conn: usize },
 }
 
 #[derive(Clone, Debug, PartialEq)]
@@ -107,6 +108,11 @@ struct SimWorld {
     active: Option<(Vec<u8>, usize)>, // data being delivered, offset
     pending: Vec<u8>,                 // bytes of the current unterminated line
     eof_sent: bool,
+    /// A fatal read error was returned on the current connection: every further read fails the same way
+    /// (a dead socket / unreadable file does not heal; only a reader that stops reading gets away).
+    dead: Option<String>,
+    /// SO_RCVTIMEO of the current connection, if the reader set one.
+    read_timeout_us: Option<i64>,
     open_step: Option<Step>,
     out: String,
     calls: u64,
@@ -206,6 +212,8 @@ impl World for SimWorld {
         self.active = None;
         self.pending.clear();
         self.eof_sent = false;
+        self.dead = None;
+        self.read_timeout_us = None;
         let idx = self.next_conn;
         if idx >= self.conns.len() {
             let t = self.now();
@@ -272,6 +280,9 @@ impl World for SimWorld {
             if self.eof_sent {
                 return Ok(0);
             }
+            if let Some(kind) = &self.dead {
+                return Err(error_of(kind));
+            }
             // the decoder has finished everything delivered so far
             self.close_step();
             let n_ops = match &self.conns[conn] {
@@ -293,6 +304,17 @@ impl World for SimWorld {
                 return Ok(0);
             }
             let op_idx = self.next_op;
+            // a receive time-out set by the reader fires before data that is further away than that
+            if let Some(to) = self.read_timeout_us {
+                let dt = match &self.conns[conn] { Conn::Accept { ops } => ops[op_idx].dt(), _ => 0 };
+                if to > 0 && dt > to {
+                    if let Conn::Accept { ops } = &mut self.conns[conn] { ops[op_idx].set_dt(dt - to); }
+                    self.advance(to);
+                    let t = self.now();
+                    self.trace.lock().unwrap().seam.push(SeamEv::ReadTimeout { t_us: t, conn });
+                    return Err(error_of("WouldBlock"));
+                }
+            }
             self.next_op += 1;
             self.trace.lock().unwrap().consumed_ops += 1;
             let op = match &self.conns[conn] {
@@ -327,6 +349,9 @@ impl World for SimWorld {
                         st.dropped_partial = Some(std::mem::take(&mut self.pending));
                     }
                     self.open_step = Some(st);
+                    if !matches!(k, io::ErrorKind::TimedOut | io::ErrorKind::WouldBlock) {
+                        self.dead = Some(kind.clone());
+                    }
                     return Err(error_of(&kind));
                 }
                 Op::Eof { .. } => {
@@ -354,6 +379,10 @@ impl World for SimWorld {
 
     fn print(&mut self, s: &str) {
         self.out.push_str(s);
+    }
+
+    fn set_read_timeout(&mut self, _id: u64, d: Option<Duration>) {
+        self.read_timeout_us = d.map(|d| d.as_micros().min(i64::MAX as u128 / 4) as i64);
     }
 }
 
@@ -478,6 +507,8 @@ pub fn run(script: &Script) -> History {
         active: None,
         pending: vec![],
         eof_sent: false,
+        dead: None,
+        read_timeout_us: None,
         open_step: None,
         out: String::new(),
         calls: 0,
